@@ -118,7 +118,7 @@ class PDCD_WS(BaseSolver):
             z_bar = self.dual_init.copy()
 
         p_objs = []
-        stop_crit = 0.
+        stop_crit = np.inf  # no convergence check performed yet
         all_features = np.arange(n_features)
 
         for iteration in range(self.max_iter):
